@@ -336,7 +336,10 @@ def x_obs_guards():
     g2 = re.search(r'their_addr := common\.BytesToAddress\(m\.Addr\)\s*\n\s*signer_pk := common\.BytesToAddress\(crypto\.Keccak256\(pk\[1:\]\)\[12:\]\)\s*\n\s*if their_addr != signer_pk \{(?:[^{}]|\n)*?return\s*\n\s*\}', body)
     gsel = re.search(r'if p\.state\.vaaSignatures\[hash\] != nil && p\.state\.vaaSignatures\[hash\]\.gs != nil \{\s*gs = p\.state\.vaaSignatures\[hash\]\.gs\s*\} else \{\s*gs = p\.gs\s*\}', body)
     gnil = re.search(r'if gs == nil \{(?:[^{}]|\n)*?return\s*\n\s*\}', body)
-    g3 = re.search(r'_, ok := gs\.KeyIndex\(their_addr\)\s*\n\s*if !ok \{(?:[^{}]|\n)*?return\s*\n\s*\}', body)
+    # after the equality guard their_addr and signer_pk are the same value: either may be looked up
+    g3 = re.search(r'_, ok := gs\.KeyIndex\((their_addr|signer_pk)\)\s*\n\s*if !ok \{(?:[^{}]|\n)*?return\s*\n\s*\}', body)
+    if g3 and g3.group(1) == 'signer_pk' and not (g2 and g2.start() < g3.start()):
+        g3 = None
     flags = {"sig": g1, "addr": g2, "member": g3}
     for k, g in flags.items():
         info[k + "_guard"] = bool(g) and g.start() < first_write
